@@ -158,6 +158,39 @@ CLAIMED = {
         technique="environment enumeration + subprocess smoke runs + TLC on the recorded table (EmuPipeline.tla part V)",
         design_ref="4/C31",
     ),
+    "C10": dict(
+        level="model_checking",
+        text="MPSOps.tla transcribes which QR / split every public MPS / MPO method performs, which centre it declares and which tensors it rebinds; TLC checks canonical form around the declared centre, norm = centre norm, "
+             "bond cap after truncating operations and splits at the centre over all histories of <= 4 operations on 2-4 sites. Every explored transition is executed on real emu_mps.MPS objects (plus simulated long histories and real TDVP sweeps) "
+             "and the requirement is evaluated on the real tensors (isometry defects, bonds, discarded weight observed through a wrapper on split_matrix).",
+        note="One-sided abstraction (real tensors must be at least as strong as the model says), checked every run; rounding slack 1e-12*||m||^2 on discarded weights (Gram-matrix split); seeded spec mutants must be refuted.",
+        technique="TLA+ model checking (TLC) + spec->code replay of every transition on real objects",
+        design_ref="4/C10",
+    ),
+    "C11": dict(
+        level="exploration",
+        text="The frame rule (only truncate, apply and in-place evolution may change an existing object's represented state) is model-checked on MPSOps.tla; every model transition is replayed on real objects carrying a dense numpy shadow, "
+             "each result compared with the dense operation and every pre-existing object re-contracted afterwards; constructors from abstract representations and MPO algebra are enumerated / sampled against Kronecker-product references.",
+        note="Truncation budget one configured precision per split not limited by the cap; MPO@MPO budgeted at the default precision per bond; sampled, not proved.",
+        technique="model-checked frame rule (TLC) + spec->code replay + seeded differential test against a numpy reference",
+        design_ref="4/C11",
+    ),
+    "C13": dict(
+        level="exploration",
+        text="Observables.tla (part 1) models the monkey-patch dispatch of both configs, which state classes each implementation accepts and what each backend does to its state before the callbacks; TLC checks totality, "
+             "value = definition on the normalised state and physical ranges over 102 cells; every cell is instantiated through the real fill_results / _apply_observables on random states, Hamiltonians and dark masks and compared with numpy definitions.",
+        note="Budgets 1e-9 relative; MPS second moment / variance carry the 1e-5 compression of H@H; dark padding restricted to two levels (three levels is C25's subject).",
+        technique="exhaustively checked dispatch table (TLC) + instantiation of each cell on real code against independent definitions",
+        design_ref="4/C13",
+    ),
+    "C15": dict(
+        level="exploration",
+        text="Observables.tla (part 2) models the 32-shot batching loop of MPS.sample and the per-shot readout-error loop; TLC checks count conservation, no overshoot and termination for every shot count 1..70 and the order / letter / flip-direction laws over full enumerations; "
+             "the same enumerations run on the real code and random states are tested with exact binomial tests (outcome bins, per-bit and pairwise flip counts) at a family-wise error of 1e-9.",
+        note="Statistical acceptance (seeded); effects below ~1.5% at 20000 shots are not resolved.",
+        technique="model-checked loop and laws (TLC) + exhaustive deterministic replay + exact statistical acceptance",
+        design_ref="4/C15",
+    ),
 }
 PENDING_REASON = "check not built yet in this round (planned in DESIGN.md section 4); not claimed until it runs"
 NOT_APPLICABLE = {}
